@@ -317,7 +317,7 @@ func monotoneOver(ff *FuncFacts, v ssa.Value, stored Matcher) (bool, string) {
 		}
 		pred := phi.Block().Preds[i]
 		this := Matcher{"edge value", func(x *Term) bool { return x.V == e || x.String() == et.String() }}
-		ok, f := ff.CmpHoldsAt(pred, CmpSpec{A: this, B: stored, Rel: GE, D: 0})
+		ok, f := ff.CmpHoldsOnEdge(pred, phi.Block(), CmpSpec{A: this, B: stored, Rel: GE, D: 0})
 		if !ok {
 			return false, fmt.Sprintf("φ edge %d carries %s with no dominating fact proving it ≥ stored height", i, et)
 		}
@@ -357,7 +357,7 @@ func raisedAt(ff *FuncFacts, blk *ssa.BasicBlock, arg ssa.Value, stored Matcher)
 					for _, cand := range cands {
 						ct := ff.Term(cand)
 						this := Matcher{"raised value", func(x *Term) bool { return x.V == cand || x.String() == ct.String() }}
-						if ok, _ := ff.CmpHoldsAt(pred, CmpSpec{A: this, B: stored, Rel: GE, D: 1}); ok {
+						if ok, _ := ff.CmpHoldsOnEdge(pred, phi.Block(), CmpSpec{A: this, B: stored, Rel: GE, D: 1}); ok {
 							good = true
 						}
 					}
